@@ -547,13 +547,15 @@ func convertUint32(u *uint32, defaultValue uint32) uint32 {
 
 func sendErrConnack(cli *client, err error) {
 	codeErr := converError(err)
+	code := codeErr.Code
 	// Override the error code if it is invalid for V3 client.
-	if packets.IsVersion3X(cli.version) && codeErr.Code > codes.V3NotAuthorized {
-		codeErr.Code = codes.NotAuthorized
+	// (not in place: the error value may be shared, e.g. codes.ErrMalformed or a hook's own variable)
+	if packets.IsVersion3X(cli.version) && code > codes.V3NotAuthorized {
+		code = codes.NotAuthorized
 	}
 	cli.out <- &packets.Connack{
 		Version:    cli.version,
-		Code:       codeErr.Code,
+		Code:       code,
 		Properties: getErrorProperties(cli, &codeErr.ErrorDetails),
 	}
 }
